@@ -56,7 +56,7 @@ struct C06 : Property
 		        "O.add_ex_constant_key", "O.empty_key", "O.long_key", "O.perllike_hash", "O.default_hash", "O.alloc_failure_leaves_map_unchanged", "L.table_size_1", "L.constant_hash_all_collide",
 		        "L.explicit_resize", "L.tombstone_reuse", "L.alloc_failure_leaves_map_unchanged", "seed_source_consulted", "O.delete_current_member_in_visitor", "O.global_hash_switched_while_object_lives", "seed_source_returned_minus_one_first"};
 	}
-	std::map<std::string, int64_t> cfg_defaults() const override { return {{"perllike", 0}, {"first_draws_minus_one", 0}}; }
+	std::map<std::string, int64_t> cfg_defaults() const override { return {{"perllike", 0}, {"first_draws_minus_one", 0}, {"first_real_draw_zero", 0}}; }
 
 	void process_init(uint64_t process_seed) override { g_seed.base = process_seed | 1; }
 	void stamp_process_cfg(Plan &p) override { p.cfg["hash_seed_base"] = (int64_t)g_seed.base; }
@@ -95,8 +95,11 @@ struct C06 : Property
 		int layer = r.chance(1, 3) ? 1 : 0; // 1 = lh_table directly
 		p.cfg["layer"] = layer;
 		p.cfg["perllike"] = r.chance(1, 3);
-		if (layer == 0 && !p.cfg["perllike"] && r.chance(1, 150))
-			p.cfg["first_draws_minus_one"] = (int64_t)r.range(1, 2);
+		if (layer == 0 && !p.cfg["perllike"] && r.chance(1, 100))
+		{
+			p.cfg["first_draws_minus_one"] = (int64_t)r.range(0, 2);
+			p.cfg["first_real_draw_zero"] = p.cfg["first_draws_minus_one"] == 0 ? 1 : (int64_t)r.below(2);
+		}
 		if (layer == 1)
 		{
 			p.cfg["tsize"] = (int64_t)r.range(1, 8);
@@ -816,7 +819,8 @@ struct C06 : Property
 		// "any hash seed" includes the draws the seed source can make: the value -1 is json-c's "not drawn yet" marker and must be
 		// redrawn.  The seed is drawn once per process, so such a run needs a virgin process whose seed source starts with -1.
 		int minus_one = (int)p.c("first_draws_minus_one");
-		if (minus_one > 0)
+		bool then_zero = p.c("first_real_draw_zero") != 0; // 0 is an ordinary seed value (and the natural "unset" marker of a careless rewrite)
+		if (minus_one > 0 || then_zero)
 		{
 			if (process_dirty)
 			{
@@ -828,6 +832,8 @@ struct C06 : Property
 				return;
 			}
 			g_seed.queue.assign((size_t)minus_one, 0xffffffffu);
+			if (then_zero)
+				g_seed.queue.push_back(0);
 			g_seed.pos = 0;
 			ctx.probe("seed_source_returned_minus_one_first");
 		}
